@@ -40,6 +40,7 @@ const (
 	prBadAccepted
 	prDupMsg
 	prSoak
+	prDecoyHeader
 	nRProbes
 )
 
@@ -48,7 +49,7 @@ var rProbeNames = []string{"overflow_eviction", "timeout_eviction", "complete_ev
 	"eoe_completed_buffered_event", "close_flushed_events", "maintain_flushed_events", "push_after_close",
 	"overflow_eviction_of_incomplete_head", "window_edge_offset_used", "call_at_exact_expiry_instant",
 	"late_arrival_after_eviction", "several_evictions_in_one_call", "two_sequence_numbers_more_than_2^24_apart",
-	"history_dealt_onto_3_to_5_far_apart_sequence_clusters", "message_parsed_before_the_first_call_pushed_later", "record_meant_as_unparsable_was_accepted_run_not_judged", "second_message_object_equal_to_the_previous_one", "long_history_of_300_to_70000_events"}
+	"history_dealt_onto_3_to_5_far_apart_sequence_clusters", "message_parsed_before_the_first_call_pushed_later", "record_meant_as_unparsable_was_accepted_run_not_judged", "second_message_object_equal_to_the_previous_one", "long_history_of_300_to_70000_events", "pushed_text_quotes_another_audit_header"}
 
 // callback records of one call
 type rGroup struct {
@@ -318,6 +319,11 @@ func ExecRPlan(p *RPlan, trace bool) *core.Result {
 				// like a netlink receive loop, the caller reuses one buffer
 				// for every record and overwrites it after Push returned.
 				raw := fmt.Sprintf("audit(%d.%03d:%d): id=%d", 1500000000+i, i%1000, seqOf(op.Off), i)
+				if op.Decoy {
+					// the record quotes another record's header (a command line, a relayed message)
+					raw = fmt.Sprintf("audit(%d.%03d:%d): cmd=\"audit(1400000000.%03d:%d):\" id=%d", 1500000000+i, i%1000, seqOf(op.Off), i%1000, seqOf(op.Off)+7, i)
+					res.Probes[prDecoyHeader]++
+				}
 				n := copy(rawBuf, raw)
 				callErr = ra.Push(auparse.AuditMessageType(op.Typ), rawBuf[:n])
 				for j := 0; j < n; j++ {
